@@ -2,6 +2,7 @@ package main
 
 import (
 	"fmt"
+	"go/token"
 	"go/types"
 	"sort"
 	"strings"
@@ -26,6 +27,13 @@ import (
 //	     after every Append and Join (R2 then models it as the log's length)
 //	G11 — a goroutine that belongs to one call of an operation and writes the replication
 //	     status is waited for before the operation returns
+//	I11 — the batch handed to a batch operation holds one document per key (a map, or a list
+//	     drawn from a range over a map)
+//	J4 — a Join that trims (size other than -1) is only reached from the load path
+//	Q6 — after a task is retired every path to the return passes the idle test
+//	J3 — the limit handed to the head fetches is never 0: what may be zero passes the
+//	     non-positive → -1 test first
+//	G12 — a slot shared by all peers is not held while waiting for one peer's bytes
 //	G10 — what Drop destroys is what the store was opened on: cache.Destroy names the same
 //	     directory and address as the cache.Load of the function that builds the store
 func rulesExtra5(c *Ctx) {
@@ -35,6 +43,11 @@ func rulesExtra5(c *Ctx) {
 	c.ruleG10()
 	c.ruleR6()
 	c.ruleG11()
+	c.ruleI11()
+	c.ruleJ4()
+	c.ruleQ6()
+	c.ruleJ3()
+	c.ruleG12()
 }
 
 // keyParamOf: the string parameter a datastore key expression is built from
@@ -521,9 +534,10 @@ func closureBindings(fn *ssa.Function, into map[ssa.Value]ssa.Value) {
 }
 
 type cacheCall struct {
-	call ssa.CallInstruction
-	dir  string
-	addr string
+	call  ssa.CallInstruction
+	dir   string
+	addr  string
+	depth int
 }
 
 // cacheCallsFrom: the calls of method `name` of the cache interface made by f, its function
@@ -546,7 +560,7 @@ func (c *Ctx) cacheCallsFrom(f *ssa.Function, name string, bind map[ssa.Value]ss
 			if c.isMethodOn(call, name, repoMod+"/cache.Interface") {
 				a := argsOf(call)
 				if len(a) >= 2 {
-					out = append(out, cacheCall{call, originOf(a[0], b, 0), originOf(a[1], b, 0)})
+					out = append(out, cacheCall{call, originOf(a[0], b, 0), originOf(a[1], b, 0), depth})
 				}
 				return
 			}
@@ -573,7 +587,15 @@ func (c *Ctx) cacheCallsFrom(f *ssa.Function, name string, bind map[ssa.Value]ss
 // store hands it a cache (cache.Load(directory, address)) and the means to destroy it
 // (cache.Destroy(directory, address)): the two calls name the same directory and address.
 func (c *Ctx) ruleG10() {
-	n := 0
+	// every destroy call is judged in the innermost function that also reaches a load: the
+	// hook may be built by a helper that is handed the directory and the address
+	type judged struct {
+		f     *ssa.Function
+		d     cacheCall
+		loads []cacheCall
+	}
+	best := map[ssa.CallInstruction]*judged{}
+	var order []ssa.CallInstruction
 	for _, f := range c.RepoFns {
 		if c.isTestFile(f.Pos()) || f.Parent() != nil || f.Blocks == nil || f.Pkg == nil {
 			continue
@@ -587,35 +609,49 @@ func (c *Ctx) ruleG10() {
 			continue
 		}
 		loads := c.cacheCallsFrom(f, "Load", map[ssa.Value]ssa.Value{}, 0)
-		for i, d := range destroys {
-			if d.call.Parent() != f && topLevel(d.call.Parent()) != f {
-				continue // reported at the function that makes the call
+		for _, d := range destroys {
+			cur, seen := best[d.call]
+			if !seen {
+				order = append(order, d.call)
 			}
-			if !c.isControlFn(f) {
-				n++
+			switch {
+			case !seen,
+				len(cur.loads) == 0 && len(loads) > 0,
+				len(loads) > 0 && d.depth < cur.d.depth:
+				best[d.call] = &judged{f, d, loads}
 			}
-			cons := fmt.Sprintf("%s→cache.Destroy#%d#same-as-loaded", fnKey(f), i)
-			if len(loads) == 0 {
-				c.undecided("G10", cons, d.call.Pos(), "the function destroys a cache it does not load: the directory and address it was loaded with could not be found")
-				continue
+		}
+	}
+	n := 0
+	perFn := map[*ssa.Function]int{}
+	for _, dc := range order {
+		j := best[dc]
+		f, d, loads := j.f, j.d, j.loads
+		if !c.isControlFn(f) {
+			n++
+		}
+		cons := fmt.Sprintf("%s→cache.Destroy#%d#same-as-loaded", fnKey(f), perFn[f])
+		perFn[f]++
+		if len(loads) == 0 {
+			c.undecided("G10", cons, d.call.Pos(), "a cache is destroyed by a function that neither loads it nor is called by one that does: the directory and address it was loaded with could not be found")
+			continue
+		}
+		match := false
+		for _, l := range loads {
+			if l.dir == d.dir && l.addr == d.addr {
+				match = true
 			}
-			match := false
-			for _, l := range loads {
-				if l.dir == d.dir && l.addr == d.addr {
-					match = true
-				}
+		}
+		if match {
+			c.ok("G10", cons, d.call.Pos(), "Destroy names the directory and address the store's cache was loaded with ("+d.dir+", "+d.addr+")")
+		} else {
+			l := loads[0]
+			what := "directory"
+			got, want := d.dir, l.dir
+			if l.dir == d.dir {
+				what, got, want = "address", d.addr, l.addr
 			}
-			if match {
-				c.ok("G10", cons, d.call.Pos(), "Destroy names the directory and address the store's cache was loaded with ("+d.dir+", "+d.addr+")")
-			} else {
-				l := loads[0]
-				what := "directory"
-				got, want := d.dir, l.dir
-				if l.dir == d.dir {
-					what, got, want = "address", d.addr, l.addr
-				}
-				c.bad("G10", cons, d.call.Pos(), fmt.Sprintf("the store's cache is loaded with %s %s but what Drop destroys is %s: when the two differ (a rarely used option, another database) Drop reports success and removes the wrong path — every entry of the dropped database comes back when it is opened again", what, want, got))
-			}
+			c.bad("G10", cons, d.call.Pos(), fmt.Sprintf("the store's cache is loaded with %s %s but what Drop destroys is %s: when the two differ (a rarely used option, another database) Drop reports success and removes the wrong path — every entry of the dropped database comes back when it is opened again", what, want, got))
 		}
 	}
 	c.floor("G10", "cache destroy hooks", n, 1)
@@ -1221,4 +1257,725 @@ func (c *Ctx) ruleG11() {
 		})
 	}
 	c.Counts["G11:operation-scoped goroutines writing the status"] = n
+}
+
+// ---------------------------------------------------------------------------
+// I11
+
+// ruleI11: one document per key in a batch. The index keeps the first document it meets for a
+// key inside one batch entry, which is right as long as a batch cannot name a key twice. The
+// batch handed to an operation constructor is therefore a map keyed by document key, or a list
+// whose elements are drawn from a range over a map; a list built straight from the caller's
+// values can hold the same key twice, and the EARLIEST revision then wins — in the log, for
+// every replica and every restart.
+func (c *Ctx) ruleI11() {
+	n := 0
+	for _, f := range c.RepoFns {
+		if c.isTestFile(f.Pos()) || f.Blocks == nil {
+			continue
+		}
+		k := 0
+		eachCall(f, func(call ssa.CallInstruction) {
+			if !isOpConstructor(call) || len(call.Common().Args) < 3 {
+				return
+			}
+			docs := call.Common().Args[2]
+			switch docs.Type().Underlying().(type) {
+			case *types.Map:
+				if !c.isControlFn(f) {
+					n++
+				}
+				c.ok("I11", fmt.Sprintf("%s→%s#one-document-per-key#%d", fnKey(f), call.Common().StaticCallee().Name(), k), call.Pos(), "the batch is a map keyed by document key: one document per key by construction")
+				k++
+				return
+			case *types.Slice:
+				// a value ([]byte) is not a batch
+				if _, basic := docs.Type().Underlying().(*types.Slice).Elem().Underlying().(*types.Basic); basic {
+					return
+				}
+			default:
+				return
+			}
+			if !c.isControlFn(f) {
+				n++
+			}
+			cons := fmt.Sprintf("%s→%s#one-document-per-key#%d", fnKey(f), call.Common().StaticCallee().Name(), k)
+			k++
+			// elements drawn from a range over a map?
+			fromMap := false
+			var seeds []ssa.Value
+			eachInstr(f, func(in ssa.Instruction) {
+				if r, ok := in.(*ssa.Range); ok {
+					if _, isMap := r.X.Type().Underlying().(*types.Map); isMap {
+						seeds = append(seeds, r)
+					}
+				}
+			})
+			if len(seeds) > 0 {
+				d := derived(seeds, flowOpts{throughCalls: true})
+				if d[docs] {
+					fromMap = true
+				}
+				// the slice is usually grown by append in the loop: look at what is appended
+				for _, v := range sliceSources(docs) {
+					if d[v] {
+						fromMap = true
+					}
+				}
+			}
+			// a parameter: the callers answer
+			if p, ok := docs.(*ssa.Parameter); ok && !fromMap {
+				_ = p
+				c.ok("I11", cons, call.Pos(), "the batch is handed on as received: the callers of this constructor answer for it")
+				return
+			}
+			if fromMap {
+				c.ok("I11", cons, call.Pos(), "the batch list is drawn from a range over a map: one document per key")
+			} else {
+				c.bad("I11", cons, call.Pos(), "the batch handed to the operation is a list built from the caller's values, not from a map keyed by document key: it can name the same key twice, and inside one batch entry the index keeps the FIRST document it meets for a key — the earliest revision wins instead of the latest, in the log, for every replica and every restart")
+			}
+		})
+	}
+	c.floor("I11", "batch operations built", n, 1)
+}
+
+// sliceSources: the element values appended (or stored) into the slice v, following phis and
+// append calls backwards.
+func sliceSources(v ssa.Value) []ssa.Value {
+	var out []ssa.Value
+	seen := map[ssa.Value]bool{}
+	var walk func(x ssa.Value, n int)
+	walk = func(x ssa.Value, n int) {
+		if x == nil || seen[x] || n > 8 {
+			return
+		}
+		seen[x] = true
+		switch y := x.(type) {
+		case *ssa.Phi:
+			for _, e := range y.Edges {
+				walk(e, n+1)
+			}
+		case *ssa.Call:
+			if b, ok := y.Call.Value.(*ssa.Builtin); ok && b.Name() == "append" && len(y.Call.Args) == 2 {
+				walk(y.Call.Args[0], n+1)
+				// the variadic tail: a slice literal holding the appended elements
+				if sl, ok := y.Call.Args[1].(*ssa.Slice); ok {
+					if al, ok := sl.X.(*ssa.Alloc); ok && al.Referrers() != nil {
+						for _, r := range *al.Referrers() {
+							if ia, ok := r.(*ssa.IndexAddr); ok && ia.Referrers() != nil {
+								for _, r2 := range *ia.Referrers() {
+									if st, ok := r2.(*ssa.Store); ok {
+										out = append(out, st.Val)
+									}
+								}
+							}
+						}
+					}
+				}
+			}
+		case *ssa.UnOp:
+			// a captured or address-taken local holding the slice
+			if al, ok := y.X.(*ssa.Alloc); ok && al.Referrers() != nil {
+				for _, r := range *al.Referrers() {
+					if st, ok := r.(*ssa.Store); ok && st.Addr == ssa.Value(al) {
+						walk(st.Val, n+1)
+					}
+				}
+			}
+		}
+	}
+	walk(v, 0)
+	return out
+}
+
+// ---------------------------------------------------------------------------
+// J4
+
+// ruleJ4: entries only ever leave the log at load. A Join that is given a size other than the
+// constant -1 keeps that many most recent entries and drops the rest: it belongs to the load
+// path, where the caller asked for a limit. Reached from the path that merges a replicated
+// batch or from the write path, every merge trims the log (to the MaxHistory option when the
+// "no limit" of that path is resolved like Load's) and entries that were listed disappear.
+func (c *Ctx) ruleJ4() {
+	n := 0
+	for _, f := range c.RepoFns {
+		if c.isTestFile(f.Pos()) || f.Blocks == nil {
+			continue
+		}
+		k := 0
+		eachCall(f, func(call ssa.CallInstruction) {
+			if !c.isLogCall(call, "Join") {
+				return
+			}
+			a := argsOf(call)
+			if len(a) < 2 {
+				return
+			}
+			if kk, isK := constInt(a[1]); isK && kk == -1 {
+				return
+			}
+			if !c.isControlFn(f) {
+				n++
+			}
+			cons := fmt.Sprintf("%s→Join#%d#trims-only-at-load", fnKey(f), k)
+			k++
+			// the functions this trim can be reached from. While the size is a parameter handed
+			// down unchanged, a caller that passes a negative constant ("no limit") does not trim
+			reach := map[*ssa.Function]bool{}
+			paramIdx := func(g *ssa.Function, v ssa.Value) int {
+				for i, p := range g.Params {
+					if ssa.Value(p) == v {
+						return i
+					}
+				}
+				return -1
+			}
+			var up func(g *ssa.Function, d int, idx int)
+			up = func(g *ssa.Function, d int, idx int) {
+				if reach[topLevel(g)] && idx < 0 || d > 4 {
+					return
+				}
+				reach[topLevel(g)] = true
+				for _, h := range c.RepoFns {
+					if c.isTestFile(h.Pos()) || c.isControlFn(h) != c.isControlFn(f) {
+						continue
+					}
+					eachCall(h, func(cs ssa.CallInstruction) {
+						if cs.Common().StaticCallee() != g {
+							return
+						}
+						next := -1
+						if idx >= 0 && idx < len(cs.Common().Args) {
+							arg := cs.Common().Args[idx]
+							if kk, isK := constInt(arg); isK && kk < 0 {
+								return // "no limit" handed down: this caller never trims
+							}
+							next = paramIdx(h, arg)
+						}
+						up(h, d+1, next)
+					})
+				}
+			}
+			up(f, 0, paramIdx(f, a[1]))
+			var why string
+			var names []string
+			for g := range reach {
+				names = append(names, fnKey(g))
+			}
+			sort.Strings(names)
+			for g := range reach {
+				for _, gg := range withClosures(g) {
+					eachCall(gg, func(x ssa.CallInstruction) {
+						switch {
+						case c.isEmitOf(x, "stores.EventReplicated"):
+							why = fnKey(g) + ", which merges a replicated batch"
+						case c.isLogCall(x, "Append"):
+							why = fnKey(g) + ", which appends a local write"
+						}
+					})
+				}
+			}
+			if why == "" {
+				c.ok("J4", cons, call.Pos(), "the trimming Join is only reached from "+strings.Join(names, ", ")+": no merge of a replicated batch and no local write goes through it")
+			} else {
+				c.bad("J4", cons, call.Pos(), "a Join that drops all but the most recent entries is reached from "+why+": entries only ever leave the log when a load asks for a limit — trimmed at every merge (down to the MaxHistory option when this path's \"no limit\" is resolved like Load's), entries that were listed disappear and Get by their address answers with another entry")
+			}
+		})
+	}
+	c.floor("J4", "trimming joins", n, 1)
+}
+
+// ---------------------------------------------------------------------------
+// Q6
+
+// ruleQ6: whoever retires a task asks whether the replicator is idle. The fetched logs wait in
+// the buffer until the idle test passes and load-end hands them to the store; the test runs
+// where a task leaves the table's active states. After every such site — a delete of a task
+// entry, the assignment of a final state — every path to the return passes the idle test (in
+// the function or, for a helper, in each caller). A failed fetch that "has nothing to flush"
+// and returns early skips it: when it is the last of a busy period to complete, the valid logs
+// fetched before it stay in the buffer, marked fetched, and are never joined.
+func (c *Ctx) ruleQ6() {
+	tt := c.findTaskTable()
+	if tt == nil {
+		return
+	}
+	var fns []*ssa.Function
+	for _, f := range c.fnsInPkg("stores/replicator") {
+		if !c.isTestFile(f.Pos()) {
+			fns = append(fns, f)
+		}
+	}
+	idle := map[*ssa.Function]bool{}
+	for _, f := range c.idlePredicates(fns) {
+		idle[f] = true
+	}
+	if len(idle) == 0 {
+		c.floor("Q6", "idle tests gating load-end", 0, 1)
+		return
+	}
+	kIdle := newKind("idle-test", func(call ssa.CallInstruction) bool { return idle[call.Common().StaticCallee()] })
+	isNext := func(call ssa.CallInstruction) bool {
+		h := call.Common().StaticCallee()
+		return h != nil && h.Name() == "Next" && h.Signature.Recv() != nil && strings.Contains(typeStr(h.Signature.Recv().Type()), "processQueue")
+	}
+	emitsEnd := func(f *ssa.Function) bool {
+		found := false
+		eachCall(f, func(call ssa.CallInstruction) {
+			if c.isEmitOf(call, "stores/replicator.EventLoadEnd") {
+				found = true
+			}
+		})
+		return found
+	}
+	n := 0
+	for _, f := range fns {
+		if f.Blocks == nil || emitsEnd(f) || idle[f] {
+			continue // what load-end itself collects needs no further test
+		}
+		claims := false // the functions that queue an item or take it from the queue mark it active
+		eachCall(f, func(call ssa.CallInstruction) {
+			if isNext(call) {
+				claims = true
+			}
+			if h := call.Common().StaticCallee(); h != nil && h.Name() == "Add" && h.Signature.Recv() != nil && strings.Contains(typeStr(h.Signature.Recv().Type()), "processQueue") {
+				claims = true
+			}
+		})
+		k := 0
+		eachInstr(f, func(in ssa.Instruction) {
+			retire := false
+			switch x := in.(type) {
+			case *ssa.MapUpdate:
+				if tt.isTable(x.Map) {
+					if s, ok := constInt(x.Value); ok && !tt.initial[s] && !claims {
+						retire = true
+					}
+				}
+			case *ssa.Call:
+				if tt.isDelete(x) {
+					retire = true
+				}
+			}
+			if !retire {
+				return
+			}
+			if !c.isControlFn(f) {
+				n++
+			}
+			cons := fmt.Sprintf("%s→retire#%d→idle-test", fnKey(f), k)
+			k++
+			if ok, hit, tr := c.releasedAfter(f, after(in), kIdle, 0); !ok {
+				c.bad("Q6", cons, hit.Pos(), "a task leaves the table here and a path to the return does not ask whether the replicator is idle (neither here nor in the callers): when this is the last task of a busy period to complete — a failed or rejected fetch finishing after the valid ones — load-end never fires for that period, and the logs already fetched stay in the buffer, marked fetched, never joined", c.trailStr(tr)...)
+			} else {
+				c.ok("Q6", cons, in.Pos(), "after the task is retired every path to the return passes the idle test")
+			}
+		})
+	}
+	c.floor("Q6", "task retirement sites", n, 2)
+}
+
+// ---------------------------------------------------------------------------
+// J3
+
+// positiveAt: a dominating test established v > 0 (or v >= 1) at block b.
+func positiveAt(v ssa.Value, b *ssa.BasicBlock) bool {
+	for _, ft := range factsAt(b) {
+		x, y, op := ft.X, ft.Y, ft.Op
+		if y == nil {
+			continue
+		}
+		if x != v && y == v {
+			x, y, op = y, x, swap(op)
+		}
+		if x != v {
+			continue
+		}
+		k, isK := constInt(y)
+		if !isK {
+			continue
+		}
+		if (op == token.GTR && k >= 0) || (op == token.GEQ && k >= 1) {
+			return true
+		}
+	}
+	return false
+}
+
+// positiveOnEdge: the branch from block p to block to is taken only when v > 0
+// (`if v <= 0 { v = -1 }` without an else: the edge that skips the assignment).
+func positiveOnEdge(v ssa.Value, p, to *ssa.BasicBlock) bool {
+	if len(p.Instrs) == 0 || len(p.Succs) != 2 || p.Succs[0] == p.Succs[1] {
+		return false
+	}
+	iff, ok := p.Instrs[len(p.Instrs)-1].(*ssa.If)
+	if !ok {
+		return false
+	}
+	bo, ok := iff.Cond.(*ssa.BinOp)
+	if !ok {
+		return false
+	}
+	x, y, op := bo.X, bo.Y, bo.Op
+	if x != v && y == v {
+		x, y, op = y, x, swap(op)
+	}
+	if x != v {
+		return false
+	}
+	k, isK := constInt(y)
+	if !isK {
+		return false
+	}
+	if to == p.Succs[1] {
+		op = negate(op)
+	} else if to != p.Succs[0] {
+		return false
+	}
+	return (op == token.GTR && k >= 0) || (op == token.GEQ && k >= 1)
+}
+
+// limitNormalised: v is never zero — a non-zero constant, a value a dominating test found
+// positive, or the result of a same-package function all of whose returns are.
+func (c *Ctx) limitNormalised(v ssa.Value, at *ssa.BasicBlock, depth int) bool {
+	if depth > 3 {
+		return false
+	}
+	if k, isK := constInt(v); isK {
+		return k != 0
+	}
+	if positiveAt(v, at) {
+		return true
+	}
+	switch x := v.(type) {
+	case *ssa.Phi:
+		for i, e := range x.Edges {
+			if i >= len(x.Block().Preds) {
+				return false
+			}
+			p := x.Block().Preds[i]
+			if positiveOnEdge(e, p, x.Block()) {
+				continue
+			}
+			if !c.limitNormalised(e, p, depth+1) {
+				return false
+			}
+		}
+		return true
+	case *ssa.Call:
+		h := x.Call.StaticCallee()
+		if h == nil || h.Blocks == nil || h.Pkg == nil || !inRepo(h.Pkg.Pkg) {
+			return false
+		}
+		okAll, any := true, false
+		eachInstr(h, func(in ssa.Instruction) {
+			r, isRet := in.(*ssa.Return)
+			if !isRet || len(r.Results) == 0 {
+				return
+			}
+			any = true
+			for _, rv := range resolveSpill(r.Results[0]) {
+				if !c.limitNormalised(rv, r.Block(), depth+1) {
+					okAll = false
+				}
+			}
+		})
+		return any && okAll
+	}
+	return false
+}
+
+// ruleJ3: a non-positive limit loads everything — it never reaches the fetcher as 0. The
+// fetcher reads a length of 0 as "one entry per head" (and the trim reads it as "no limit"),
+// so Load(-1) on a store whose MaxHistory option is 0 returns nil with only the newest entry
+// visible. In the function that owns the limit handed to the head fetches, every value stored
+// into it that may be zero is followed, on every path to the fetch, by the test that turns a
+// non-positive limit into -1 (or by a store that is itself never zero).
+func (c *Ctx) ruleJ3() {
+	st := c.storeType()
+	if st == nil {
+		return
+	}
+	n := 0
+	for _, f := range c.methodsOf(st) {
+		if c.isTestFile(f.Pos()) {
+			continue
+		}
+		top := topLevel(f)
+		if top.Name() != "Load" && !strings.HasPrefix(top.Name(), "verifCtl") && !c.calledOnlyFrom(top, "Load") {
+			continue
+		}
+		k := 0
+		eachCall(f, func(call ssa.CallInstruction) {
+			if calleeFull(call) != logMod+".NewFromEntryHash" {
+				return
+			}
+			var lenVal ssa.Value
+			for _, a := range call.Common().Args {
+				p, ok := a.Type().(*types.Pointer)
+				if !ok || !strings.HasSuffix(typeStr(p.Elem()), "FetchOptions") {
+					continue
+				}
+				if l, ok := structLitFields(a)["Length"]; ok {
+					lenVal = l
+				}
+			}
+			if lenVal == nil {
+				return
+			}
+			if k1, known := c.fetchLength(call); known && k1 == 1 {
+				return
+			}
+			cons := fmt.Sprintf("%s→head-fetch#length-never-zero#%d", fnKey(f), k)
+			k++
+			// the cell that holds the limit, and the instruction of its owner that leads to the fetch
+			cell, anchor := c.limitCell(lenVal, call, 0)
+			if cell == nil {
+				return // a shape this rule does not follow (J2 still looks at the value)
+			}
+			if !c.isControlFn(f) {
+				n++
+			}
+			g := cell.Parent()
+			isNorm := func(in ssa.Instruction) bool {
+				// the normalising test: a comparison of the limit with 0/1 one of whose branches
+				// stores a negative constant into it
+				iff, ok := in.(*ssa.If)
+				if !ok {
+					return false
+				}
+				bo, ok := iff.Cond.(*ssa.BinOp)
+				if !ok {
+					return false
+				}
+				ld, ok := bo.X.(*ssa.UnOp)
+				if !ok || ld.X != ssa.Value(cell) {
+					return false
+				}
+				for _, sc := range iff.Block().Succs {
+					for _, x := range sc.Instrs {
+						if s2, ok := x.(*ssa.Store); ok && s2.Addr == ssa.Value(cell) {
+							if kk, isK := constInt(s2.Val); isK && kk < 0 {
+								return true
+							}
+						}
+					}
+				}
+				return false
+			}
+			var bad ssa.Instruction
+			var trail []token.Pos
+			eachInstr(g, func(in ssa.Instruction) {
+				s, ok := in.(*ssa.Store)
+				if !ok || s.Addr != ssa.Value(cell) || bad != nil {
+					return
+				}
+				if c.limitNormalised(s.Val, s.Block(), 0) {
+					return
+				}
+				via := func(x ssa.Instruction) bool {
+					if isNorm(x) {
+						return true
+					}
+					if s2, ok := x.(*ssa.Store); ok && s2.Addr == ssa.Value(cell) && s2 != s && c.limitNormalised(s2.Val, s2.Block(), 0) {
+						return true
+					}
+					return false
+				}
+				if hit, tr := findPath(g, after(s), via, func(x ssa.Instruction) bool { return x == anchor }, nil); hit != nil {
+					bad, trail = s, tr
+				}
+			})
+			if bad != nil {
+				c.bad("J3", cons, bad.Pos(), "a value that may be 0 is stored into the limit and reaches the head fetch without passing the test that turns a non-positive limit into -1: the fetcher reads a length of 0 as one entry per head (and the trim reads it as no limit), so a load that should list everything — Load(-1) on a store whose MaxHistory option is 0 — returns nil with only the newest entry visible", c.trailStr(trail)...)
+			} else {
+				c.ok("J3", cons, call.Pos(), "every value stored into the limit that may be zero passes the non-positive → -1 test before the head fetch")
+			}
+		})
+	}
+	c.floor("J3", "head fetches at load", n, 1)
+}
+
+// limitCell resolves the Length handed to a fetch to the local that holds the limit in the
+// function that owns it, and the instruction of that function which leads to the fetch (the
+// fetch itself, the go statement or the call that hands the limit on).
+func (c *Ctx) limitCell(v ssa.Value, use ssa.Instruction, depth int) (*ssa.Alloc, ssa.Instruction) {
+	if depth > 4 {
+		return nil, nil
+	}
+	switch x := v.(type) {
+	case *ssa.Alloc:
+		// a copy made for this fetch (length := amount): follow what is copied
+		if sv := uniqueStore(x); sv != nil {
+			if ld, ok := sv.(*ssa.UnOp); ok && ld.Op == token.MUL {
+				if c2, a2 := c.limitCell(ld.X, use, depth+1); c2 != nil {
+					return c2, a2
+				}
+			}
+			if p, ok := sv.(*ssa.Parameter); ok {
+				if c2, a2 := c.limitCell(p, use, depth+1); c2 != nil {
+					return c2, a2
+				}
+			}
+		}
+		return x, use
+	case *ssa.FreeVar:
+		fn := x.Parent()
+		par := fn.Parent()
+		if par == nil {
+			return nil, nil
+		}
+		var out *ssa.Alloc
+		var anchor ssa.Instruction
+		eachInstr(par, func(in ssa.Instruction) {
+			mc, ok := in.(*ssa.MakeClosure)
+			if !ok || mc.Fn != ssa.Value(fn) || out != nil {
+				return
+			}
+			for i, fv := range fn.FreeVars {
+				if fv == x && i < len(mc.Bindings) {
+					// the instruction that runs the literal: the go/call that uses this closure
+					var user ssa.Instruction = mc
+					if refs := mc.Referrers(); refs != nil && len(*refs) > 0 {
+						user = (*refs)[0]
+					}
+					out, anchor = c.limitCell(mc.Bindings[i], user, depth+1)
+				}
+			}
+		})
+		return out, anchor
+	case *ssa.Parameter:
+		fn := x.Parent()
+		idx := -1
+		for i, p := range fn.Params {
+			if p == x {
+				idx = i
+			}
+		}
+		if idx < 0 {
+			return nil, nil
+		}
+		var out *ssa.Alloc
+		var anchor ssa.Instruction
+		for _, g := range c.RepoFns {
+			if c.isTestFile(g.Pos()) || out != nil {
+				continue
+			}
+			eachCall(g, func(cs ssa.CallInstruction) {
+				if out != nil || cs.Common().StaticCallee() != fn || idx >= len(cs.Common().Args) {
+					return
+				}
+				a := cs.Common().Args[idx]
+				if ld, ok := a.(*ssa.UnOp); ok && ld.Op == token.MUL {
+					a = ld.X
+				}
+				out, anchor = c.limitCell(a, cs, depth+1)
+			})
+		}
+		return out, anchor
+	}
+	return nil, nil
+}
+
+// ---------------------------------------------------------------------------
+// G12
+
+// isPeerRead: a call that waits for bytes from a reader (io.ReadFull and friends, bufio and
+// binary readers, a Read method).
+func isPeerRead(call ssa.CallInstruction) bool {
+	switch calleeFull(call) {
+	case "io.ReadFull", "io.ReadAtLeast", "io.ReadAll", "io.Copy", "io.CopyN", "encoding/binary.Read", "encoding/binary.ReadUvarint", "encoding/binary.ReadVarint":
+		return true
+	}
+	if g := call.Common().StaticCallee(); g != nil && g.Signature.Recv() != nil && typeStr(g.Signature.Recv().Type()) == "*bufio.Reader" && (strings.HasPrefix(g.Name(), "Read") || g.Name() == "Peek") {
+		return true
+	}
+	return call.Common().IsInvoke() && methodName(call) == "Read"
+}
+
+// ruleG12: a slot shared by every peer is not held while waiting for one peer's bytes. In a
+// function that serves a network stream, no read from the stream is reachable between taking a
+// slot (a counting semaphore, a token channel) and giving it back. A frame that announces its
+// length and then stops — the stream left open — holds its slot for ever; as many such frames
+// as there are slots and every later message from every peer waits for ever.
+func (c *Ctx) ruleG12() {
+	n, nStreamFns := 0, 0
+	for _, f := range c.RepoFns {
+		if c.isTestFile(f.Pos()) || f.Blocks == nil || f.Parent() != nil {
+			continue
+		}
+		// serves a stream: a parameter or a value of the libp2p stream type
+		serves := false
+		for _, g := range withClosures(f) {
+			for _, p := range g.Params {
+				if strings.HasSuffix(typeStr(p.Type()), "network.Stream") {
+					serves = true
+				}
+			}
+		}
+		if !serves {
+			continue
+		}
+		if !c.isControlFn(f) {
+			nStreamFns++
+		}
+		for _, g := range withClosures(f) {
+			k := 0
+			eachInstr(g, func(in ssa.Instruction) {
+				op := resourceOp(in)
+				if op == nil || !op.acquire {
+					return
+				}
+				if !c.isControlFn(f) {
+					n++
+				}
+				cons := fmt.Sprintf("%s→acquire(%s)#%d#not-held-across-peer-read", fnKey(g), op.res, k)
+				k++
+				rel := func(x ssa.Instruction) bool {
+					o := resourceOp(x)
+					if o != nil && !o.acquire && o.res == op.res {
+						return true
+					}
+					// released by a function literal called here (not deferred: a deferred
+					// release runs at the return, after the read)
+					if call, ok := x.(ssa.CallInstruction); ok {
+						if _, isDefer := x.(*ssa.Defer); isDefer {
+							return false
+						}
+						if mc, ok := call.Common().Value.(*ssa.MakeClosure); ok {
+							if lit, ok := mc.Fn.(*ssa.Function); ok {
+								found := false
+								eachInstr(lit, func(y ssa.Instruction) {
+									if o := resourceOp(y); o != nil && !o.acquire && o.res == op.res {
+										found = true
+									}
+								})
+								return found
+							}
+						}
+					}
+					return false
+				}
+				read := func(x ssa.Instruction) bool {
+					call, ok := x.(ssa.CallInstruction)
+					if !ok {
+						return false
+					}
+					if _, isDefer := x.(*ssa.Defer); isDefer {
+						return false
+					}
+					return isPeerRead(call)
+				}
+				// findPath evaluates deferred calls at the return, so a deferred release does not
+				// shield a read that comes before the return
+				if hit, tr := findPath(g, after(in), rel, read, nil); hit != nil {
+					c.bad("G12", cons, hit.Pos(), "a slot shared by all peers is held while this function waits for bytes from one peer's stream: a frame that announces a length and then stops, its stream left open, keeps the slot for ever — as many such frames as there are slots and every later frame from every peer (and the honest sender's Send) waits for ever", c.trailStr(tr)...)
+				} else {
+					c.ok("G12", cons, in.Pos(), "the slot is given back before anything is read from the stream")
+				}
+			})
+		}
+	}
+	c.Counts["G12:slot acquisitions in stream handlers"] = n
+	c.floor("G12", "functions serving a network stream", nStreamFns, 1)
 }
